@@ -248,12 +248,20 @@ class Checker:
                     yield from leaves(m)
         for fact in fs:
             for leaf in leaves(fact):
+                if leaf[0] == 'atom' and isinstance(leaf[1], ast.Constant):
+                    continue      # `... or not True`: restricts nothing
                 al = list(allowed) + (
                     list(composite_extra) if fact[0] != 'atom' else [])
-                if not any(R(a).implied_by(leaf, env) for a in al) \
+
+                def fits(a, lf):
+                    # vocabulary check: metavariables are per atom, not
+                    # shared across the facts of the site
+                    env.binds.clear()
+                    return R(a).implied_by(lf, env)
+                if not any(fits(a, leaf) for a in al) \
                         and not (fact[0] != 'atom' and any(
-                            R(a).implied_by((leaf[0], leaf[1], not leaf[2]),
-                                            env) for a in al)):
+                            fits(a, (leaf[0], leaf[1], not leaf[2]))
+                            for a in al)):
                     bad.append(show_fact(fact))
                     break
         return self.ob(rule, self.key(node, f) + ' only-under ' + ', '.join(
